@@ -214,33 +214,6 @@ Qed.
 Lemma range_in_rep r v : facts r -> in_range r v -> imin (rep r) <= v <= imax (rep r).
 Proof. intros [_ _ Hspan _ Hmn Hmx Hlo Hhi _] H. unfold in_range in H. lia. Qed.
 
-(* dev profile: the exact result when it is in range; otherwise a panic — the `expect` of the
-   checked constructor when the exact result still fits the Rep, rustc's overflow check when it does not *)
-Lemma arith_dev r o a b : facts r ->
-  let e := exact o a b in
-  (in_range r e -> arith dev r o a b = Ok e) /\
-  (~ in_range r e -> arith dev r o a b = Panic (if in_ity (rep r) e then PExpect else POverflow)).
-Proof.
-  intros F e. unfold arith. fold e. cbn [debug_assertions dev].
-  destruct (in_ity (rep r) e) eqn:Ein.
-  - apply in_ity_iff in Ein. rewrite prim_ok by exact Ein. cbn [bind]. apply expect_new_spec.
-  - assert (Hn : ~ (imin (rep r) <= e <= imax (rep r))) by (rewrite <- in_ity_iff; congruence).
-    rewrite prim_overflow by exact Hn. cbn [overflow_checks dev bind]. split; intros H; [|reflexivity].
-    exfalso. apply Hn. apply range_in_rep; assumption.
-Qed.
-
-Lemma neg_dev r a : facts r ->
-  (in_range r (- a) -> neg dev r a = Ok (- a)) /\
-  (~ in_range r (- a) -> neg dev r a = Panic (if in_ity (rep r) (- a) then PExpect else POverflow)).
-Proof.
-  intros F. unfold neg. cbn [debug_assertions dev].
-  destruct (in_ity (rep r) (- a)) eqn:Ein.
-  - apply in_ity_iff in Ein. rewrite prim_ok by exact Ein. cbn [bind]. apply expect_new_spec.
-  - assert (Hn : ~ (imin (rep r) <= - a <= imax (rep r))) by (rewrite <- in_ity_iff; congruence).
-    rewrite prim_overflow by exact Hn. cbn [overflow_checks dev bind]. split; intros H; [|reflexivity].
-    exfalso. apply Hn. apply range_in_rep; assumption.
-Qed.
-
 (* sums and differences of in-range values fit the Rep and are at most one TOTAL away from the range *)
 Lemma addsub_near r o a b : facts r -> o <> OMul -> in_range r a -> in_range r b ->
   rmin r - total r <= exact o a b <= rmax r + total r.
@@ -249,56 +222,78 @@ Proof.
   destruct o; cbn [exact]; try congruence; lia.
 Qed.
 
-(* the primitive operator in a configuration without overflow checks: a Rep value congruent mod 2^rep_bits *)
-Lemma prim_nocheck c r z : facts r -> overflow_checks c = false ->
-  exists s, prim c (rep r) z = Ok s /\ imin (rep r) <= s <= imax (rep r) /\ exists k, s = z + k * 2 ^ rep_bits r.
-Proof.
-  intros F Hoc.
-  destruct (in_ity (rep r) z) eqn:Ein.
-  - apply in_ity_iff in Ein. exists z. rewrite prim_ok by exact Ein. repeat split; try lia. exists 0. lia.
-  - assert (Hn : ~ (imin (rep r) <= z <= imax (rep r))) by (rewrite <- in_ity_iff; congruence).
-    rewrite prim_overflow by exact Hn. rewrite Hoc.
-    exists (iwrap (rep r) z). split; [reflexivity|].
-    unfold rep. rewrite (f_signed r F). apply iwrap_signed_spec. exact (f_bits r F).
-Qed.
+Lemma near_in_rep r s : facts r -> rmin r - total r <= s <= rmax r + total r ->
+  imin (rep r) <= s <= imax (rep r).
+Proof. intros [_ _ _ _ _ _ Hlo Hhi _] H. lia. Qed.
 
-(* any configuration without debug assertions in which the primitive operator does not panic:
-   result in range and congruent to the exact result modulo TOTAL *)
-Lemma arith_nodebug c r o a b : facts r -> debug_assertions c = false ->
-  in_range r a -> in_range r b ->
-  forall x, arith c r o a b = x ->
-  (exists w, x = Ok w /\ in_range r w /\ exists k, w = exact o a b + k * total r) \/
-  (overflow_checks c = true /\ o = OMul /\ ~ (imin (rep r) <= exact o a b <= imax (rep r)) /\ x = Panic POverflow).
+(* Any configuration with debug assertions (overflow checks on or off): the exact result when it is
+   in range; otherwise the panic of `.expect(..)`.  The primitive + and - on the Rep cannot
+   overflow for in-range operands (bits + 2 <= rep_bits), so rustc's overflow check never fires;
+   Mul uses checked_mul, which turns a Rep overflow into the same `expect` panic. *)
+Lemma arith_debug c r o a b : facts r -> debug_assertions c = true -> in_range r a -> in_range r b ->
+  (in_range r (exact o a b) -> arith c r o a b = Ok (exact o a b)) /\
+  (~ in_range r (exact o a b) -> arith c r o a b = Panic PExpect).
 Proof.
-  intros F Hda Ha Hb x Hx. unfold arith in Hx. rewrite Hda in Hx.
+  intros F Hda Ha Hb. unfold arith. rewrite Hda.
   destruct o.
-  1,2: match type of Hx with context[exact ?o _ _] =>
+  1,2: match goal with |- context[prim _ _ (exact ?o _ _)] =>
          assert (Hnear : rmin r - total r <= exact o a b <= rmax r + total r)
            by (apply addsub_near; [exact F | discriminate | exact Ha | exact Hb]);
-         rewrite prim_ok in Hx by (destruct F as [_ _ Hspan _ Hmn Hmx Hlo Hhi _]; lia); cbn [bind] in Hx;
-         destruct (wrap_once_spec c r (exact o a b) F Hnear) as (w & E & Hr & Hk);
-         left; exists w; rewrite E in Hx; auto
+         rewrite prim_ok by (apply near_in_rep; assumption); cbn [bind]; apply expect_new_spec
        end.
-  destruct (in_ity (rep r) (exact OMul a b)) eqn:Ein.
-  - apply in_ity_iff in Ein. rewrite prim_ok in Hx by exact Ein. cbn [bind] in Hx.
-    destruct (from_rep_spec c r _ F Ein) as (w & E & Hr & Hk). left. exists w. rewrite E in Hx. auto.
-  - assert (Hn : ~ (imin (rep r) <= exact OMul a b <= imax (rep r))) by (rewrite <- in_ity_iff; congruence).
-    destruct (overflow_checks c) eqn:Hoc.
-    + right. rewrite prim_overflow, Hoc in Hx by exact Hn. cbn [bind] in Hx. auto.
-    + left. destruct (prim_nocheck c r (exact OMul a b) F Hoc) as (s & Es & Hs & ks & Hks).
-      rewrite Es in Hx. cbn [bind] in Hx.
-      destruct (from_rep_spec c r s F Hs) as (w & E & Hr & k & Hk).
-      destruct (f_div r F) as (q & Hq).
-      exists w. rewrite E in Hx. split; [auto|]. split; [exact Hr|].
-      exists (k + ks * q). rewrite Hk, Hks, Hq. ring.
+  cbn [exact]. destruct (in_ity (rep r) (a * b)) eqn:Ein.
+  - apply expect_new_spec.
+  - split; intros H; [|reflexivity]. exfalso.
+    assert (Hn : ~ (imin (rep r) <= a * b <= imax (rep r))) by (rewrite <- in_ity_iff; congruence).
+    apply Hn. apply range_in_rep; assumption.
+Qed.
+
+Lemma arith_dev r o a b : facts r -> in_range r a -> in_range r b ->
+  (in_range r (exact o a b) -> arith dev r o a b = Ok (exact o a b)) /\
+  (~ in_range r (exact o a b) -> arith dev r o a b = Panic PExpect).
+Proof. intros F. exact (arith_debug dev r o a b F eq_refl). Qed.
+
+Lemma neg_debug c r a : facts r -> debug_assertions c = true -> in_range r a ->
+  (in_range r (- a) -> neg c r a = Ok (- a)) /\
+  (~ in_range r (- a) -> neg c r a = Panic PExpect).
+Proof.
+  intros F Hda Ha. unfold neg. rewrite Hda.
+  assert (Hnear : rmin r - total r <= - a <= rmax r + total r).
+  { destruct F as [_ _ Hspan _ Hmn Hmx _ _ _]. unfold in_range in Ha. lia. }
+  rewrite prim_ok by (apply near_in_rep; assumption). cbn [bind]. apply expect_new_spec.
+Qed.
+
+(* the two's-complement reduction at the Rep width: a Rep value congruent modulo 2^rep_bits *)
+Lemma iwrap_rep r z : facts r ->
+  imin (rep r) <= iwrap (rep r) z <= imax (rep r) /\ exists k, iwrap (rep r) z = z + k * 2 ^ rep_bits r.
+Proof.
+  intros F. unfold rep. rewrite (f_signed r F). apply iwrap_signed_spec. exact (f_bits r F).
+Qed.
+
+(* Any configuration without debug assertions (overflow checks on or off): no panic, the result is
+   in range and congruent to the exact result modulo TOTAL. *)
+Lemma arith_nodebug c r o a b : facts r -> debug_assertions c = false ->
+  in_range r a -> in_range r b ->
+  exists w, arith c r o a b = Ok w /\ in_range r w /\ exists k, w = exact o a b + k * total r.
+Proof.
+  intros F Hda Ha Hb. unfold arith. rewrite Hda.
+  destruct o.
+  1,2: match goal with |- context[prim _ _ (exact ?o _ _)] =>
+         assert (Hnear : rmin r - total r <= exact o a b <= rmax r + total r)
+           by (apply addsub_near; [exact F | discriminate | exact Ha | exact Hb]);
+         rewrite prim_ok by (apply near_in_rep; assumption); cbn [bind];
+         apply wrap_once_spec; assumption
+       end.
+  cbn [exact]. destruct (iwrap_rep r (a * b) F) as (Hs & ks & Hks).
+  destruct (from_rep_spec c r _ F Hs) as (w & E & Hr & k & Hk).
+  destruct (f_div r F) as (q & Hq).
+  exists w. split; [exact E|]. split; [exact Hr|].
+  exists (k + ks * q). rewrite Hk, Hks, Hq. ring.
 Qed.
 
 Lemma arith_release r o a b : facts r -> in_range r a -> in_range r b ->
   exists w, arith release r o a b = Ok w /\ in_range r w /\ exists k, w = exact o a b + k * total r.
-Proof.
-  intros F Ha Hb.
-  destruct (arith_nodebug release r o a b F eq_refl Ha Hb _ eq_refl) as [H|(H & _)]; [exact H | discriminate H].
-Qed.
+Proof. intros F. exact (arith_nodebug release r o a b F eq_refl). Qed.
 
 Lemma neg_nodebug c r a : facts r -> debug_assertions c = false -> in_range r a ->
   exists w, neg c r a = Ok w /\ in_range r w /\ exists k, w = - a + k * total r.
@@ -306,8 +301,13 @@ Proof.
   intros F Hda Ha. unfold neg. rewrite Hda.
   assert (Hnear : rmin r - total r <= - a <= rmax r + total r).
   { destruct F as [_ _ Hspan _ Hmn Hmx _ _ _]. unfold in_range in Ha. lia. }
-  rewrite prim_ok by (destruct F as [_ _ Hspan _ Hmn Hmx Hlo Hhi _]; lia). cbn [bind].
+  rewrite prim_ok by (apply near_in_rep; assumption). cbn [bind].
   apply wrap_once_spec; assumption.
+Qed.
+
+Lemma in_range_dec r v : {in_range r v} + {~ in_range r v}.
+Proof.
+  unfold in_range. destruct (Z_le_dec (rmin r) v); [destruct (Z_le_dec v (rmax r))|]; [left|right|right]; lia.
 Qed.
 
 (* whatever the configuration (the four combinations of the two flags): a returned value is in range *)
@@ -316,28 +316,22 @@ Lemma arith_never_outside c r o a b w : facts r -> in_range r a -> in_range r b 
 Proof.
   intros F Ha Hb H.
   destruct (debug_assertions c) eqn:Hda.
-  - unfold arith in H. rewrite Hda in H.
-    destruct (prim c (rep r) (exact o a b)) as [s| |]; cbn [bind] in H; try discriminate.
-    destruct (Z_le_dec (rmin r) s) as [H1|H1]; [destruct (Z_le_dec s (rmax r)) as [H2|H2]|].
-    + destruct (expect_new_spec r s) as [E _]. rewrite E in H by (unfold in_range; lia).
-      injection H as <-. unfold in_range; lia.
-    + destruct (expect_new_spec r s) as [_ E]. rewrite E in H by (unfold in_range; lia). discriminate.
-    + destruct (expect_new_spec r s) as [_ E]. rewrite E in H by (unfold in_range; lia). discriminate.
-  - destruct (arith_nodebug c r o a b F Hda Ha Hb _ eq_refl) as [(w' & E & Hr & _)|(_ & _ & _ & E)];
-      rewrite H in E; [injection E as <-; exact Hr | discriminate].
+  - destruct (arith_debug c r o a b F Hda Ha Hb) as [H1 H2].
+    destruct (in_range_dec r (exact o a b)) as [Hi|Hi].
+    + rewrite (H1 Hi) in H. injection H as <-. exact Hi.
+    + rewrite (H2 Hi) in H. discriminate.
+  - destruct (arith_nodebug c r o a b F Hda Ha Hb) as (w' & E & Hr & _).
+    rewrite H in E. injection E as <-. exact Hr.
 Qed.
 
 Lemma neg_never_outside c r a w : facts r -> in_range r a -> neg c r a = Ok w -> in_range r w.
 Proof.
   intros F Ha H.
   destruct (debug_assertions c) eqn:Hda.
-  - unfold neg in H. rewrite Hda in H.
-    destruct (prim c (rep r) (- a)) as [s| |]; cbn [bind] in H; try discriminate.
-    destruct (Z_le_dec (rmin r) s) as [H1|H1]; [destruct (Z_le_dec s (rmax r)) as [H2|H2]|].
-    + destruct (expect_new_spec r s) as [E _]. rewrite E in H by (unfold in_range; lia).
-      injection H as <-. unfold in_range; lia.
-    + destruct (expect_new_spec r s) as [_ E]. rewrite E in H by (unfold in_range; lia). discriminate.
-    + destruct (expect_new_spec r s) as [_ E]. rewrite E in H by (unfold in_range; lia). discriminate.
+  - destruct (neg_debug c r a F Hda Ha) as [H1 H2].
+    destruct (in_range_dec r (- a)) as [Hi|Hi].
+    + rewrite (H1 Hi) in H. injection H as <-. exact Hi.
+    + rewrite (H2 Hi) in H. discriminate.
   - destruct (neg_nodebug c r a F Hda Ha) as (w' & E & Hr & _). rewrite H in E. injection E as <-. exact Hr.
 Qed.
 
@@ -351,6 +345,32 @@ Qed.
 
 Lemma cong_mod w e m : (exists k, w = e + k * m) -> (w - e) mod m = 0.
 Proof. intros (k & ->). replace (e + k * m - e) with (k * m) by ring. apply Z_mod_mult. Qed.
+
+(* the overflow-checks setting is irrelevant on in-range operands: two configurations that agree on
+   debug_assertions compute the same result *)
+Lemma arith_oc_irrelevant c c' r o a b : facts r -> debug_assertions c = debug_assertions c' ->
+  in_range r a -> in_range r b -> arith c r o a b = arith c' r o a b.
+Proof.
+  intros F Hd Ha Hb. destruct (debug_assertions c) eqn:Hda; symmetry in Hd.
+  - destruct (arith_debug c r o a b F Hda Ha Hb) as [H1 H2].
+    destruct (arith_debug c' r o a b F Hd Ha Hb) as [H1' H2'].
+    destruct (in_range_dec r (exact o a b)) as [Hi|Hi]; [rewrite H1, H1' | rewrite H2, H2']; auto.
+  - destruct (arith_nodebug c r o a b F Hda Ha Hb) as (w & E & Hr & k & Hk).
+    destruct (arith_nodebug c' r o a b F Hd Ha Hb) as (w' & E' & Hr' & k' & Hk').
+    rewrite E, E'. f_equal. apply (wrapped_unique r w w' F Hr Hr'). exists (k - k'). lia.
+Qed.
+
+Lemma neg_oc_irrelevant c c' r a : facts r -> debug_assertions c = debug_assertions c' ->
+  in_range r a -> neg c r a = neg c' r a.
+Proof.
+  intros F Hd Ha. destruct (debug_assertions c) eqn:Hda; symmetry in Hd.
+  - destruct (neg_debug c r a F Hda Ha) as [H1 H2].
+    destruct (neg_debug c' r a F Hd Ha) as [H1' H2'].
+    destruct (in_range_dec r (- a)) as [Hi|Hi]; [rewrite H1, H1' | rewrite H2, H2']; auto.
+  - destruct (neg_nodebug c r a F Hda Ha) as (w & E & Hr & k & Hk).
+    destruct (neg_nodebug c' r a F Hd Ha) as (w' & E' & Hr' & k' & Hk').
+    rewrite E, E'. f_equal. apply (wrapped_unique r w w' F Hr Hr'). exists (k - k'). lia.
+Qed.
 
 (* ---- widening From impls ---- *)
 
